@@ -297,7 +297,7 @@ class AppMemberSuite(Suite):
         return ((pub, managed, rules, active), ops)
 
     def generate(self, rng, tier):
-        n, max_ops = (1000, 22) if tier == 'quick' else (20000, 60)
+        n, max_ops = (1000, 22) if tier == 'quick' else (8000, 50)
         out = []
         for k in range(n):
             out.append(self.gen_case(rng, max_ops, hostile=(k % 4 == 3), drift=(k % 12 == 7)))
